@@ -70,7 +70,7 @@ fn drain<R: BufRead>(src: &mut R, out: &mut [u8; 8]) -> usize {
     usize::MAX // more than 6 non-empty reads: cannot happen with <= 2 windows and 2 lines
 }
 
-// @verif prop=C12,C11 id=O12.4g tier=quick unwind=10 stubs="memchr::memchr->first-occurrence loop (cfg(kani) source shim, documented contract)" bound="sequence text b0 b1 CR LF b2 CR LF '>' (3 symbolic base bytes, CRLF line ends, next record follows) delivered through a BufRead that splits the text in two at ANY offset (one solver-placed partial fill_buf window of any size, then the rest), drained through the sequence Reader's Read impl: bases read == b0 b1 b2, no terminator byte ever emitted, stops in front of '>'" fns="fasta::io::reader::sequence::Reader::read,Reader::fill_buf,Reader::consume,consume_empty_lines"
+// @verif prop=C12,C11 id=O12.4g tier=quick unwind=10 timeout=900 stubs="memchr::memchr->first-occurrence loop (cfg(kani) source shim, documented contract)" bound="sequence text b0 b1 CR LF b2 CR LF '>' (3 symbolic base bytes, CRLF line ends, next record follows) delivered through a BufRead that splits the text in two at ANY offset (one solver-placed partial fill_buf window of any size, then the rest), drained through the sequence Reader's Read impl: bases read == b0 b1 b2, no terminator byte ever emitted, stops in front of '>'" fns="fasta::io::reader::sequence::Reader::read,Reader::fill_buf,Reader::consume,consume_empty_lines"
 #[kani::proof]
 #[kani::unwind(10)]
 fn c12_fasta_sequence_reader_read_crlf_any_windows() {
@@ -85,7 +85,7 @@ fn c12_fasta_sequence_reader_read_crlf_any_windows() {
     assert_eq!(src.pos, 7);
 }
 
-// @verif prop=C12,C11,C13 id=O12.4h tier=quick unwind=10 stubs="memchr::memchr->first-occurrence loop (cfg(kani) source shim, documented contract)" bound="sequence text b0 LF b1 b2 then EOF without a final line terminator / with a final CR LF (symbolic choice), split in two at any offset: exactly b0 b1 b2, then end of sequence" fns="Reader::read,Reader::fill_buf,Reader::consume,consume_empty_lines"
+// @verif prop=C12,C11,C13 id=O12.4h tier=thorough unwind=10 stubs="memchr::memchr->first-occurrence loop (cfg(kani) source shim, documented contract)" bound="sequence text b0 LF b1 b2 then EOF without a final line terminator / with a final CR LF (symbolic choice), split in two at any offset: exactly b0 b1 b2, then end of sequence" fns="Reader::read,Reader::fill_buf,Reader::consume,consume_empty_lines"
 #[kani::proof]
 #[kani::unwind(10)]
 fn c12_fasta_sequence_reader_read_last_line_any_windows() {
